@@ -516,7 +516,7 @@ func ruleC17(c *Check) {
 			}
 		}
 	}
-	c.req(len(grpc) >= 1 && len(grpc) == len(legacy), "C17.1", "query-tables", token.NoPos, fmt.Sprintf("%d gRPC methods, %d legacy routes", len(grpc), len(legacy)))
+	c.req(len(grpc) >= 1 && len(legacy) >= len(grpc), "C17.1", "query-tables", token.NoPos, fmt.Sprintf("%d gRPC methods, %d legacy routes (every gRPC method has a legacy counterpart; further legacy-only routes are judged by the read-only rule)", len(grpc), len(legacy)))
 	c.setInfo("grpc_methods", len(grpc))
 	c.setInfo("legacy_routes", len(legacy))
 	// the QueryServer interface is implemented exhaustively
@@ -548,7 +548,21 @@ func ruleC17(c *Check) {
 			}
 		}
 		sort.Strings(bySig[s])
-		c.req(ng == nl, "C17.1", "pair:"+strings.Join(bySig[s], "~"), token.NoPos, "both interfaces read the same records with the same request-field roles: {"+s+"}")
+		if ng == 0 {
+			// a legacy route without a gRPC counterpart: nothing to agree with (it must still be read-only)
+			c.ok("C17.1", "legacy-only:"+strings.Join(bySig[s], "~"), token.NoPos, "legacy-only route(s), read set {"+s+"}")
+			continue
+		}
+		// further legacy-only routes may read the same records (a derived value of a record another route returns)
+		var gs, ls []string
+		for _, n := range bySig[s] {
+			if strings.HasPrefix(n, "grpc:") {
+				gs = append(gs, n)
+			} else {
+				ls = append(ls, n)
+			}
+		}
+		c.req(nl >= ng, "C17.1", "pair:"+strings.Join(gs, "~"), token.NoPos, fmt.Sprintf("every gRPC method has a legacy route reading the same records with the same request-field roles: {%s} — legacy: %s", s, strings.Join(ls, ", ")))
 	}
 	// read-only
 	for _, q := range append(append([]querySig{}, grpc...), legacy...) {
@@ -574,6 +588,63 @@ func ruleC17(c *Check) {
 			}
 		}
 	}
+	// C17.8: which records a query reads is decided by the request (and by records read on the way) alone: no key
+	// segment is taken from a module parameter, the block height or the block time — a lookup keyed by the current
+	// value of a parameter leaves out the records stored while the parameter had another value
+	nKeys := 0
+	for _, q := range append(append([]querySig{}, grpc...), legacy...) {
+		bad := map[string]bool{}
+		for _, e := range c.P.SummaryOf(q.fn).Effs {
+			if e.Kind != "store" || e.Key == nil || !(e.Op == "Get" || e.Op == "Has" || e.Op == "Iter") {
+				continue
+			}
+			nKeys++
+			e.Key.Walk(func(t *Term) bool {
+				if strings.HasSuffix(t.Op, "Subspace.Get") || strings.HasSuffix(t.Op, "Subspace.GetParamSet") {
+					bad["a module parameter ("+shortTerm(t)+") in the key of "+effDesc(e)+" at "+c.pos(e.Pos)] = true
+				}
+				if g := c.P.FuncNamed(t.Op); g != nil && g.isHandWritten() && g.Body != nil && !c.P.pathsBusy[g] {
+					for _, gp := range c.P.PathsOf(g) {
+						for _, r := range gp.Ret {
+							r.Walk(func(x *Term) bool {
+								if strings.HasSuffix(x.Op, "Subspace.Get") || strings.HasSuffix(x.Op, "Subspace.GetParamSet") {
+									bad["a module parameter ("+shortTerm(t)+") in the key of "+effDesc(e)+" at "+c.pos(e.Pos)] = true
+								}
+								return true
+							})
+						}
+					}
+				}
+				if t.IsAt("BlockHeight") || t.IsAt("BlockTime") {
+					bad["the block "+strings.ToLower(strings.TrimPrefix(t.At, "Block"))+" in the key of "+effDesc(e)+" at "+c.pos(e.Pos)] = true
+				}
+				return true
+			})
+		}
+		// one read site, one key: the record looked up for a given request is not chosen among alternatives
+		// by other stored state (e.g. "the owner's record, unless the address is also a provider — then its owner's")
+		siteKeys := map[string]map[string]bool{}
+		for _, e := range c.P.SummaryOf(q.fn).Effs {
+			if e.Kind != "store" || e.Key == nil || e.Op != "Get" || e.InLoop {
+				continue
+			}
+			k := e.SiteKey() + " " + e.Family
+			if siteKeys[k] == nil {
+				siteKeys[k] = map[string]bool{}
+			}
+			siteKeys[k][stripConv(e.Key).String()] = true
+			if len(siteKeys[k]) == 2 {
+				bad["the lookup "+effDesc(e)+" at "+c.pos(e.Pos)+" is made under alternative keys for the same request"] = true
+			}
+		}
+		var bs []string
+		for b := range bad {
+			bs = append(bs, b)
+		}
+		sort.Strings(bs)
+		c.req(len(bs) == 0, "C17.8", q.name+"#keys-from-request", q.fn.Body.Pos(), "every key the query reads is built from the request, constants and records read on the way"+condStr(len(bs) > 0, ": "+strings.Join(bs, "; ")))
+	}
+	c.req(nKeys >= 10, "C17.8", "query-reads", token.NoPos, fmt.Sprintf("%d store reads reachable from query entries", nKeys))
 	c.keyGrammar("C17.5", map[string]bool{"0x02": true, "0x03": true, "0x13": true, "0x14": true, "0x16": true, "0x18": true})
 	c.queryIndexMaintained("C17.6")
 	c.enumTables("C17.7")
